@@ -477,23 +477,55 @@ func shuffled(r *Rng, n int) []int {
 var c11FaultClasses = []string{"unknown_soil_id", "unknown_field_id", "texture_not_in_tables", "inconsistent_texture_fractions", "weather_gap", "tillage_between_sowing_and_harvest", "start_year_mismatch"}
 
 // applyFault turns a valid scenario into one that must fail with a reported run error of the given class.
-func applyFault(sc *Scenario, class string, r *Rng) (errLike string) {
+// shape selects a variation of the fault (0 = the plainest form): another horizon, another boundary of the forbidden
+// window, another kind of gap, ...
+func applyFault(sc *Scenario, class string, r *Rng, shape int) (errLike string) {
 	switch class {
 	case "unknown_soil_id":
-		sc.PolySID = "9ZZ"
+		switch shape % 3 {
+		case 0:
+			sc.PolySID = "9ZZ"
+		case 1:
+			sc.PolySID = sc.PolySID + "X" // an id that only extends an existing one
+		default:
+			if len(sc.PolySID) > 1 {
+				sc.PolySID = sc.PolySID[:len(sc.PolySID)-1] // an id that is a prefix of an existing one
+			} else {
+				sc.PolySID = "9ZZ"
+			}
+		}
 		if sc.GWMode == 2 {
 			sc.GWMode = 1
 		}
 		return "not found"
 	case "unknown_field_id":
-		sc.PolyFieldID = "NOFLD"
+		switch shape % 3 {
+		case 0:
+			sc.PolyFieldID = "NOFLD"
+		case 1:
+			sc.PolyFieldID = sc.PolyFieldID + "X"
+		default:
+			if len(sc.PolyFieldID) > 1 {
+				sc.PolyFieldID = sc.PolyFieldID[:len(sc.PolyFieldID)-1]
+			} else {
+				sc.PolyFieldID = "NOFLD"
+			}
+		}
 		return "not found"
 	case "texture_not_in_tables":
 		for i := range sc.Soil.Horizons {
 			sc.Soil.Horizons[i].FC, sc.Soil.Horizons[i].WP, sc.Soil.Horizons[i].PS = 0, 0, 0
 		}
 		sc.PTF = 0
-		sc.Soil.Horizons[len(sc.Soil.Horizons)-1].Texture = "QQ9"
+		nh := len(sc.Soil.Horizons)
+		hi := nh - 1 // plainest form: the last horizon
+		switch shape % 3 {
+		case 1:
+			hi = 0
+		case 2:
+			hi = nh / 2
+		}
+		sc.Soil.Horizons[hi].Texture = "QQ9"
 		return "QQ9"
 	case "inconsistent_texture_fractions":
 		sc.PTF = 1 + r.Intn(4)
@@ -502,8 +534,18 @@ func applyFault(sc *Scenario, class string, r *Rng) (errLike string) {
 			h.FC, h.WP = 0, 0
 			h.PS = 60
 		}
-		h := &sc.Soil.Horizons[0]
-		h.Sand, h.Silt, h.Clay = 30, 30, 20
+		nh := len(sc.Soil.Horizons)
+		switch shape % 3 {
+		case 0:
+			h := &sc.Soil.Horizons[0]
+			h.Sand, h.Silt, h.Clay = 30, 30, 20
+		case 1:
+			h := &sc.Soil.Horizons[nh-1]
+			h.Sand, h.Silt, h.Clay = 44, 30, 30 // 104 % in the deepest horizon (the model tolerates 97..103 as rounding)
+		default:
+			h := &sc.Soil.Horizons[nh/2]
+			h.Sand, h.Silt, h.Clay = 36, 30, 30 // 96 %
+		}
 		return "does not sum up to 100"
 	case "weather_gap":
 		if sc.Weather.Layout == 0 {
@@ -512,9 +554,20 @@ func applyFault(sc *Scenario, class string, r *Rng) (errLike string) {
 				sc.ETpot = 3
 			}
 		}
-		// remove a block of days inside the first simulated year after the start
+		// remove a block of days inside the first simulated year after the start (shape 1: one single day; shape 2: a block
+		// late in the simulated period)
 		from := sc.Start.Zeit() + r.Range(20, 60)
 		to := from + r.Range(0, 20)
+		switch shape % 3 {
+		case 1:
+			to = from
+		case 2:
+			from = sc.End.Zeit() - r.Range(25, 60)
+			if from <= sc.Start.Zeit()+5 {
+				from = sc.Start.Zeit() + 20
+			}
+			to = from + r.Range(0, 6)
+		}
 		fy := DateOfZeit(from).Y
 		if hi := (Date{fy, 12, 30}).Zeit(); to > hi {
 			from, to = hi-10, hi
@@ -530,13 +583,48 @@ func applyFault(sc *Scenario, class string, r *Rng) (errLike string) {
 		sc.Weather.Days = keep
 		return "missing days"
 	case "tillage_between_sowing_and_harvest":
-		e := sc.Rotation[1]
-		mid := (e.Sow.Zeit() + e.Harvest.Zeit()) / 2
+		// the first crop that is sown and harvested inside the simulated period (else: one that is at least sown inside it)
+		var e *RotEntry
+		inside := false
+		for i := 1; i < len(sc.Rotation); i++ {
+			if sc.Rotation[i].Harvest.Zeit() <= sc.End.Zeit()-3 {
+				e, inside = &sc.Rotation[i], true
+				break
+			}
+		}
+		if e == nil {
+			for i := 1; i < len(sc.Rotation); i++ {
+				if sc.Rotation[i].Sow.Zeit() < sc.End.Zeit()-12 {
+					e = &sc.Rotation[i]
+					break
+				}
+			}
+		}
+		if e == nil {
+			return "" // no crop inside the period: the fault cannot be placed
+		}
+		z := (e.Sow.Zeit() + e.Harvest.Zeit()) / 2
+		if !inside {
+			z = e.Sow.Zeit() + 4
+			shape = 2 - shape%2*2 // only the shapes at the sowing end of the window
+		}
+		switch shape % 4 {
+		case 1:
+			z = e.Harvest.Zeit() // the harvest day itself still belongs to the crop
+		case 2:
+			z = e.Sow.Zeit() + 1
+		case 3:
+			z = e.Harvest.Zeit() - 1
+		}
 		sc.AutoSow, sc.AutoHarvest = false, false
-		sc.Till = []TillEvent{{DateOfZeit(mid), 20, 1}}
+		sc.Till = []TillEvent{{DateOfZeit(z), 20, 1}}
+		if shape%4 != 0 && e.Sow.Zeit()-6 > sc.Start.Zeit() {
+			// a regular tillage in the fallow before the crop comes first
+			sc.Till = append([]TillEvent{{DateOfZeit(e.Sow.Zeit() - 5), 15, 1}}, sc.Till...)
+		}
 		return "tillage date"
 	case "start_year_mismatch":
-		sc.ExtraArgs = append(sc.ExtraArgs, "StartYear="+strconv.Itoa(sc.Start.Y+1))
+		sc.ExtraArgs = append(sc.ExtraArgs, "StartYear="+strconv.Itoa(sc.Start.Y+[]int{1, -1, 10}[shape%3]))
 		return "does not match"
 	}
 	return ""
